@@ -110,19 +110,42 @@ def rule_hash_int(ctx, repo, eng):
         return
     fmt = repo.fold(unp[0].args[0], fi.module)
     codes = split_fmt(fmt_str(fmt)) if fmt is not UNKNOWN else []
-    ok = len(codes) == 8 and all(fmt_info(c)[0] == 4 and fmt_info(c)[1] == '<' and fmt_info(c)[2][0] == 0 for c in codes)
-    r.check(ok, 'limbs', common.site_of(fi, unp[0]), 'eight unsigned little-endian 32-bit limbs', 'the hash is unpacked with format %r; reference: 8 x little-endian u32' % (fmt,))
-    r.check(norm(unp[0].args[1]) == '%s[:32]' % s, 'bytes', common.site_of(fi, unp[0]), 'first 32 bytes', 'unpacks `%s`' % norm(unp[0].args[1]))
+    # n unsigned little-endian limbs of w bits each with n * w = 256 (eight u32 on the confirmed tree; four u64, sixteen
+    # u16, thirty-two bytes are the same number): limb i carries weight 2**(w*i)
+    widths = {fmt_info(c)[0] for c in codes} if codes else set()
+    w8 = widths.pop() if len(widths) == 1 else None
+    ok = w8 in (1, 2, 4, 8) and len(codes) * w8 == 32 and all(fmt_info(c)[1] == '<' and fmt_info(c)[2][0] == 0 for c in codes)
+    r.check(ok, 'limbs', common.site_of(fi, unp[0]), '%d unsigned little-endian %d-bit limbs' % (len(codes), 8 * (w8 or 0)),
+            'the hash is unpacked with format %r; a 256-bit little-endian number is n unsigned little-endian limbs of 256/n bits (reference: 8 x u32)' % (fmt,))
+    if not ok:
+        return
+    nl, wb = len(codes), 8 * w8
+    from ..restore import NF
+    src = norm(NF().visit(ast.parse(norm(unp[0].args[1]), mode='eval').body))
+    r.check(src == '%s[:32]' % s, 'bytes', common.site_of(fi, unp[0]), 'first 32 bytes', 'unpacks `%s`' % norm(unp[0].args[1]))
     loops = [n for n in walk_no_nested(fi.node) if isinstance(n, ast.For)]
+    from ..rules import canon_arith
     ok = False
-    if len(loops) == 1 and norm(loops[0].iter) == 'range(8)' and len(loops[0].body) == 1:
+    und = False
+
+    def weight_ok(elt, limb_text, idx_text):
+        try:
+            return canon_arith(elt) == canon_arith('%s << (%s * %d)' % (limb_text, idx_text, wb))
+        except Exception:
+            return False
+    tvar = None
+    for n in walk_no_nested(fi.node):
+        if isinstance(n, ast.Assign) and n.value is unp[0] and isinstance(n.targets[0], ast.Name):
+            tvar = n.targets[0].id
+    if len(loops) == 1 and len(loops[0].body) == 1 and isinstance(loops[0].target, ast.Name):
         b = loops[0].body[0]
         i = norm(loops[0].target)
-        if isinstance(b, ast.AugAssign) and isinstance(b.op, (ast.Add, ast.BitOr)):
-            ok = shape.match(b.value, 't[%s] << (%s * 32)' % (i, i)) == 'same'
-    if not ok:
-        # sum(word << 32*pos for pos, word in enumerate(limbs)): the same weighted sum
-        from ..rules import canon_arith
+        dom = repo.fold(loops[0].iter, fi.module)
+        if isinstance(b, ast.AugAssign) and isinstance(b.op, (ast.Add, ast.BitOr)) and isinstance(dom, range) and list(dom) == list(range(nl)) and tvar:
+            ok = weight_ok(b.value, '%s[%s]' % (tvar, i), i)
+        elif not isinstance(dom, range):
+            und = True
+    elif not loops:
         und = True
         for n in ast.walk(fi.node):
             if isinstance(n, ast.Call) and norm(n.func) == 'sum' and len(n.args) == 1 and isinstance(n.args[0], (ast.GeneratorExp, ast.ListComp)):
@@ -131,14 +154,18 @@ def rule_hash_int(ctx, repo, eng):
                 if gen is not None and isinstance(gen.iter, ast.Call) and norm(gen.iter.func) == 'enumerate' and isinstance(gen.target, ast.Tuple) and len(gen.target.elts) == 2:
                     pi, wi = norm(gen.target.elts[0]), norm(gen.target.elts[1])
                     und = False
-                    ok = canon_arith(g.elt) == canon_arith('%s << (%s * 32)' % (wi, pi))
-                elif gen is not None and norm(gen.iter) == 'range(8)' and isinstance(gen.target, ast.Name):
-                    und = False
-                    ok = shape.match(g.elt, 't[%s] << (%s * 32)' % (gen.target.id, gen.target.id)) == 'same'
-        if not ok and und and not loops:
-            r.undecided('weights', fi.site, 'the limbs are combined in a form that is not recognised')
-            return
-    r.check(ok, 'weights', fi.site, 'r += limb[i] << 32*i for i in 0..7', 'limbs are not combined as limb[i] << (32*i) over i = 0..7')
+                    ok = weight_ok(g.elt, wi, pi)
+                elif gen is not None and isinstance(gen.target, ast.Name) and tvar:
+                    dom = repo.fold(gen.iter, fi.module)
+                    if isinstance(dom, range) and list(dom) == list(range(nl)):
+                        und = False
+                        ok = weight_ok(g.elt, '%s[%s]' % (tvar, gen.target.id), gen.target.id)
+    else:
+        und = True
+    if not ok and und:
+        r.undecided('weights', fi.site, 'the limbs are combined in a form that is not recognised')
+        return
+    r.check(ok, 'weights', fi.site, 'r += limb[i] << %d*i for i in 0..%d' % (wb, nl - 1), 'limbs are not combined as limb[i] << (%d*i) over i = 0..%d' % (wb, nl - 1))
 
 
 def rule_limits(ctx, repo):
